@@ -6,6 +6,7 @@ import (
 	"hash/fnv"
 	"os"
 	"path/filepath"
+	"strings"
 
 	"github.com/glebziz/fs_db"
 	"github.com/glebziz/fs_db/internal/model/sequence"
@@ -89,6 +90,16 @@ func (p propC05) Gen(r *simrt.Rand, idx int, tier string) any {
 	}
 	if idx%2 == 0 {
 		c := genSeqCase(r, seqProfile{prop: "C05", steps: [2]int{15, 50}, keys: [2]int{2, 4}, maxTx: 4, txWeight: 50, ctlWeight: 8, reopen: 10, readback: "all"})
+		if idx%10 == 4 {
+			// a key of a length nobody planned for (the inline client takes any string)
+			long := strings.Repeat("K", []int{65001, 70000, 100000}[r.Intn(3)])
+			c.Keys = append(c.Keys, long)
+			for i := range c.Ops {
+				if c.Ops[i].Key != "" && c.Ops[i].Key != "never-written" && r.Intn(4) == 0 {
+					c.Ops[i].Key = long
+				}
+			}
+		}
 		if idx%8 == 2 {
 			// Run B: the same kind of history, every Close/Open being a real process boundary: one
 			// fresh child process per segment on a directory that outlives them
